@@ -66,6 +66,12 @@ def run(pid, tier, seed, replay=None):
                            {"op": "writemem", "o": 1, "armed": -1}, {"op": "destroy", "o": 2}, {"op": "destroy", "o": 1}])
             sweeps.append([{"op": "constructfrom", "o": 1, "file": fa, "armed": -1}, {"op": "construct", "o": 2}, {"op": "moveassign", "o": 2, "src": 1},
                            {"op": "moveassign", "o": 1, "src": 2}, {"op": "writemem", "o": 1, "armed": -1}, {"op": "destroy", "o": 1}, {"op": "destroy", "o": 2}])
+        # permutations (reversal and rotation alternate in the driver) of tables from every file, then everything else on the result
+        for f in (1, 2, 3):
+            sweeps.append([{"op": "construct", "o": 1}, {"op": "read", "o": 1, "file": f, "armed": -1}, {"op": "permute", "o": 1, "good": True}, {"op": "writemem", "o": 1, "armed": -1},
+                           {"op": "permute", "o": 1, "good": True}, {"op": "permute", "o": 1, "good": True}, {"op": "compare", "o": 1, "o2": 1}, {"op": "convolve", "o": 1, "armed": -1},
+                           {"op": "permute", "o": 1, "good": False}, {"op": "permute", "o": 1, "good": True}, {"op": "write", "o": 1, "armed": -1},
+                           {"op": "read", "o": 1, "file": f, "armed": -1}, {"op": "destroy", "o": 1}])
         for f in (11, 12, 13, 14, 15, 16):
             sweeps.append([{"op": "construct", "o": 1}, {"op": "read", "o": 1, "file": f, "armed": -1}, {"op": "readmem", "o": 1, "file": f, "armed": -1},
                            {"op": "read", "o": 1, "file": 1, "armed": -1}, {"op": "read", "o": 1, "file": 2, "armed": -1}, {"op": "destroy", "o": 1},
